@@ -154,6 +154,10 @@ static void run_prog (int nfn)
   if (!setjmp (econ.context))
     {
       eval_cost = CONFIG_INT (__MAX_EVAL_COST__);
+      /* the inherited program must be loaded first: load_object retries without pre_text after loading an
+         inherit, which would look for a source file */
+      if (!find_object_by_name ("c03/base"))
+        load_object ("/c03/base.c", 0);
       ob = load_object ("/c03/prog.c", src ? src : "");
       pop_context (&econ);
     }
@@ -222,7 +226,7 @@ static int c03_cmd (char *line)
       src_add (line[1] ? line + 2 : "");
       return 1;
     }
-  if (!strncmp (line, "sx ", 3))
+  if (!strncmp (line, "sx ", 3) || !strncmp (line, "same ", 5))
     return 1;
   if (!strncmp (line, "run ", 4))
     {
